@@ -35,8 +35,11 @@ def evaluate(mod, cases, want_model=True):
     if want_model and getattr(mod, 'DRIVER', None):
         reqs = []
         counts = []
-        for c in cases:
-            rs = mod.model_requests(c)
+        with_impl = getattr(mod, 'model_requests_impl', None)
+        for c, io in zip(cases, impl):
+            # optional hook: requests that quote observations of the implementation (e.g. the
+            # hierarchy after structural updates modelled elsewhere); default: from the case only
+            rs = with_impl(c, io) if with_impl else mod.model_requests(c)
             counts.append(len(rs))
             reqs.extend(rs)
         ans = lib.Driver(mod.DRIVER).ask(reqs)
